@@ -2,14 +2,20 @@
 """
 C05 - Property values always conform to the Property's dtype, in normal form.
 
+(see design.d/C05.md, "Strengthening after seeded round 3", for the streams marked 3x / 4x / 5x)
+
 Tie between lean/OdmlModel/Model/DTypes.lean (+ Val, Py/Num, Py/Time) and /repo:
   * dtypes.valid_type / infer_dtype / get / set tabulated over the dtype-name pool x value pool
   * random histories  Property(...) ; values= / dtype= / append / extend / insert / [i]= /
     remove / merge / clone, strict on and off, observed after every call
 plus the property restated over the public API (oracle), independent of the model.
 """
+import array
+import collections
 import datetime as dt
+import decimal
 import enum
+import fractions
 import re
 import sys
 
@@ -20,9 +26,246 @@ STR_CLASS = ("string", "text", "url", "person")
 TUPLE_RE = re.compile(r"[1-9][0-9]*-tuple")
 
 
+# ----------------------------------------------------------------------------- values outside the model
+# (strengthening after seeded round 3) Python values the API accepts but the Lean value universe
+# does not contain: objects that carry a time zone, instances of subclasses of the accepted types,
+# the other members of the numeric tower, bytes, text with non-ASCII digits / Unicode white space /
+# lone surrogates, iterables that are neither list nor tuple, index arguments that are not small
+# ints. A case that contains one of them is oracle-only (model_requests returns []).
+class XInt(int):
+    pass
+
+
+class XFloat(float):
+    pass
+
+
+class XStr(str):
+    pass
+
+
+class XDate(dt.date):
+    pass
+
+
+class XTime(dt.time):
+    pass
+
+
+class XDateTime(dt.datetime):
+    pass
+
+
+class XIntEnum(enum.IntEnum):
+    zero = 0
+    three = 3
+
+
+class XStrEnum(str, enum.Enum):
+    word = "word"
+
+
+class XIndex(object):
+    def __index__(self):
+        return 1
+
+
+class XTz(dt.tzinfo):
+    """a hand-written tzinfo (what pytz / dateutil objects look like to the library)"""
+
+    def utcoffset(self, _when):
+        return dt.timedelta(hours=-5, minutes=-30)
+
+    def dst(self, _when):
+        return None
+
+    def tzname(self, _when):
+        return "X"
+
+
+SUBCLASSES = (XInt, XFloat, XStr, XDate, XTime, XDateTime)
+
+
+def _tz(hours, minutes=0, seconds=0, micro=0):
+    return dt.timezone(dt.timedelta(hours=hours, minutes=minutes, seconds=seconds, microseconds=micro))
+
+
+def _zone(name):
+    from zoneinfo import ZoneInfo
+    return ZoneInfo(name)
+
+
+UTC = dt.timezone.utc
+EXOTIC = {
+    # ---- time: with a time zone (fixed offsets, named zone, hand-written tzinfo), fold, subclass, max
+    "t_utc": lambda: dt.time(23, 59, 59, tzinfo=UTC),
+    "t_p2_us": lambda: dt.time(10, 30, 15, 123456, tzinfo=_tz(2)),
+    "t_m0530": lambda: dt.time(0, 0, 0, tzinfo=_tz(-5, -30)),
+    "t_oddoff": lambda: dt.time(7, 8, 9, tzinfo=_tz(0, 0, 1, 5)),
+    "t_xtz": lambda: dt.time(1, 2, 3, tzinfo=XTz()),
+    "t_zone": lambda: dt.time(4, 5, 6, tzinfo=_zone("Europe/Berlin")),
+    "t_fold": lambda: dt.time(1, 2, 3, fold=1),
+    "t_max": lambda: dt.time.max,
+    "t_sub": lambda: XTime(1, 2, 3, 4),
+    "t_sub_aware": lambda: XTime(1, 2, 3, tzinfo=UTC),
+    "t_arabic": lambda: u"\u0661\u0662:\u0663\u0660:\u0664\u0665",
+    "t_text_aware": lambda: "10:30:15+02:00",
+    # ---- datetime
+    "dt_utc": lambda: dt.datetime(2020, 1, 5, 12, 30, 45, tzinfo=UTC),
+    "dt_p2_us": lambda: dt.datetime(2020, 1, 5, 12, 30, 45, 123456, tzinfo=_tz(2)),
+    "dt_m0530": lambda: dt.datetime(2020, 12, 31, 23, 59, 59, tzinfo=_tz(-5, -30)),
+    "dt_xtz": lambda: dt.datetime(2020, 1, 5, 1, 2, 3, tzinfo=XTz()),
+    "dt_zone": lambda: dt.datetime(2020, 7, 5, 1, 2, 3, tzinfo=_zone("Europe/Berlin")),
+    "dt_year5_aware": lambda: dt.datetime(5, 1, 2, 3, 4, 5, 6, tzinfo=UTC),
+    "dt_fold": lambda: dt.datetime(2020, 10, 25, 2, 30, 0, fold=1),
+    "dt_max": lambda: dt.datetime.max,
+    "dt_min": lambda: dt.datetime.min,
+    "dt_sub": lambda: XDateTime(2020, 1, 5, 1, 2, 3, 7),
+    "dt_sub_aware": lambda: XDateTime(2020, 1, 5, 1, 2, 3, tzinfo=_tz(9)),
+    "dt_text_aware": lambda: "2020-01-05 12:30:45+00:00",
+    "dt_text_iso_z": lambda: "2020-01-05T12:30:45Z",
+    # ---- date
+    "d_min": lambda: dt.date.min,
+    "d_max": lambda: dt.date.max,
+    "d_sub": lambda: XDate(2020, 2, 29),
+    "d_arabic": lambda: u"\u0662\u0660\u0662\u0660-\u0660\u0661-\u0660\u0665",
+    "d_ls": lambda: u"2020-01-05\u2028",
+    # ---- int
+    "i_sub": lambda: XInt(3),
+    "i_sub0": lambda: XInt(0),
+    "i_enum": lambda: XIntEnum.three,
+    "i_enum0": lambda: XIntEnum.zero,
+    "i_dec": lambda: decimal.Decimal("1.5"),
+    "i_dec_nan": lambda: decimal.Decimal("NaN"),
+    "i_dec_inf": lambda: decimal.Decimal("-Infinity"),
+    "i_frac": lambda: fractions.Fraction(-7, 2),
+    "i_complex": lambda: 1 + 2j,
+    "i_bytes": lambda: b"12",
+    "i_bytearray": lambda: bytearray(b"12"),
+    "i_index": lambda: XIndex(),
+    "i_arabic": lambda: u"\u0663",
+    "i_fullwidth": lambda: u"\uff11\uff12",
+    "i_ls": lambda: u" 12\u2028",
+    "i_nel": lambda: u"\x8512\x85",
+    "i_nbsp": lambda: u"\xa07",
+    "i_big": lambda: 10 ** 400,
+    "i_negbig": lambda: -10 ** 400,
+    "i_bigstr": lambda: "1" * 400,
+    "i_arabic_float": lambda: u"\u0661.\u0665",
+    "i_hex": lambda: "0x10",
+    "i_plus": lambda: "+5",
+    # ---- float
+    "f_sub": lambda: XFloat(1.5),
+    "f_sub_nan": lambda: XFloat("nan"),
+    "f_dec": lambda: decimal.Decimal("2.25"),
+    "f_frac": lambda: fractions.Fraction(3, 2),
+    "f_big": lambda: 10 ** 400,
+    "f_bytes": lambda: b"1.5",
+    "f_infinity": lambda: "Infinity",
+    "f_negnan": lambda: "-NaN",
+    "f_under": lambda: "1_0.5",
+    "f_tiny": lambda: "1e-400",
+    "f_hugeexp": lambda: "1e400",
+    "f_minus0": lambda: "-0",
+    "f_17digits": lambda: 0.1 + 0.2,
+    "f_denorm": lambda: 5e-324,
+    # ---- str
+    "s_sub": lambda: XStr("abc"),
+    "s_sub_empty": lambda: XStr(""),
+    "s_enum": lambda: XStrEnum.word,
+    "s_bytes": lambda: b"ab",
+    "s_surrogate": lambda: u"a\ud800b",
+    "s_nel": lambda: u"a\x85b",
+    "s_ls": lambda: u"a\u2028b",
+    "s_ls_only": lambda: u"\u2028",
+    "s_nbsp": lambda: u"\xa0x\xa0",
+    "s_nul": lambda: u"a\x00b",
+    "s_astral": lambda: u"\U0001f600",
+    "s_combining": lambda: u"e\u0301",
+    "s_rtl": lambda: u"\u200fabc",
+    "s_crlf": lambda: "a\r\nb",
+    "s_long": lambda: "x" * 5000,
+    "s_bracket_ls": lambda: u"[a,\u2028b]",
+    "s_cjk": lambda: u"\u6f22\u5b57",
+    # ---- boolean
+    "b_xint1": lambda: XInt(1),
+    "b_xint0": lambda: XInt(0),
+    "b_xstr_true": lambda: XStr("True"),
+    "b_xstr_f": lambda: XStr("f"),
+    "b_dec1": lambda: decimal.Decimal(1),
+    "b_complex1": lambda: 1 + 0j,
+    "b_fullwidth": lambda: u"\uff54",
+    "b_bytes": lambda: b"true",
+    "b_dotted_i": lambda: u"\u0130",
+    # ---- n-tuple values (2 items unless said otherwise)
+    "tu_xstr_items": lambda: (XStr("a"), 1),
+    "tu_semicolon": lambda: ("a;b", "c"),
+    "tu_unicode": lambda: u"(\xe9;\u6f22)",
+    "tu_ls": lambda: u"(a\u2028;\x85b)",
+    "tu_none_item": lambda: ["a", None],
+    "tu_bytes": lambda: [b"a", b"b"],
+    "tu_empty_items": lambda: ("", ""),
+    "tu_paren_items": lambda: ("(a", "b)"),
+    "tu_deep": lambda: [["a", ["b"]]],
+    "tu_xstr": lambda: XStr("(a;b)"),
+    "tu_aware": lambda: (dt.time(1, 2, 3, tzinfo=UTC), dt.date(2020, 1, 5)),
+    "tu_10_list": lambda: [str(k) for k in range(10)],
+    "tu_10_text": lambda: "(" + ";".join(str(k) for k in range(10)) + ")",
+    "tu_12_text": lambda: "(" + "; ".join("v%d" % k for k in range(12)) + ")",
+    # ---- index arguments
+    "ix_index": lambda: XIndex(),
+    "ix_xint": lambda: XInt(1),
+}
+X_NATURAL = {
+    "int": [n for n in sorted(EXOTIC) if n.startswith("i_")],
+    "float": [n for n in sorted(EXOTIC) if n.startswith("f_")] + ["i_dec", "i_frac", "i_sub", "i_enum"],
+    "boolean": [n for n in sorted(EXOTIC) if n.startswith("b_")] + ["i_enum0", "f_sub"],
+    "str": [n for n in sorted(EXOTIC) if n.startswith("s_")] + ["t_utc", "i_complex", "i_dec", "dt_p2_us"],
+    "date": [n for n in sorted(EXOTIC) if n.startswith("d_")] + ["dt_utc", "dt_sub"],
+    "time": [n for n in sorted(EXOTIC) if n.startswith("t_")] + ["dt_utc"],
+    "datetime": [n for n in sorted(EXOTIC) if n.startswith("dt_")] + ["d_sub", "t_utc"],
+    "tuple": [n for n in sorted(EXOTIC) if n.startswith("tu_")] + ["s_sub", "s_ls"],
+}
+X_ALL = sorted(n for n in EXOTIC if not n.startswith("ix_"))
+# iterables that are neither list nor tuple (what _convert_value_input turns into a list)
+ITER_KINDS = ["gen", "iter", "set", "frozenset", "dict", "keys", "deque", "map", "range", "bytes", "array"]
+# index / strict arguments of other shapes (JSON carries them as they are, except the two objects)
+X_INDEX = [True, False, 1.0, 0.5, -1.0, "0", "1", None, 10 ** 30, -10 ** 30, 2 ** 31, -2 ** 63 - 1,
+           {"x": "ix_index"}, {"x": "ix_xint"}]
+X_STRICT = [True, False, 0, 1, None, "", "no", 2]
+
+
+def unmodelled_enc(e):
+    """Does the encoding of a stored value contain something the driver cannot read (a time
+    zone, an object of a class enc does not know)? Never the case on a modelled input unless the
+    implementation stores what it should not - which the oracle reports."""
+    if isinstance(e, dict):
+        if "tz" in e or "weird" in e:
+            return True
+        return any(unmodelled_enc(x) for x in e.get("l", e.get("tu", [])))
+    if isinstance(e, list):
+        return any(unmodelled_enc(x) for x in e)
+    return False
+
+
+def std_index(i):
+    return type(i) is int and abs(i) < 2 ** 31
+
+
+def tz_desc(v):
+    try:
+        off = v.utcoffset()
+        off = None if off is None else off.total_seconds()
+    except Exception as exc:
+        off = type(exc).__name__
+    return [type(v.tzinfo).__name__, off]
+
+
 # ----------------------------------------------------------------------------- encodings
 def enc(v):
-    """Python value -> JSON encoding shared with the Lean driver."""
+    """Python value -> JSON encoding shared with the Lean driver. A time zone is part of the
+    encoding (the model has none, so such a value never equals a model value); `fold` and the
+    exact class of a subclass instance are not (Python's == ignores them too)."""
     if v is None or isinstance(v, (bool, str)):
         return v
     if isinstance(v, enum.Enum):
@@ -32,11 +275,17 @@ def enc(v):
     if isinstance(v, float):
         return {"f": repr(v)}
     if isinstance(v, dt.datetime):
-        return {"dt": [v.year, v.month, v.day, v.hour, v.minute, v.second, v.microsecond]}
+        e = {"dt": [v.year, v.month, v.day, v.hour, v.minute, v.second, v.microsecond]}
+        if v.tzinfo is not None:
+            e["tz"] = tz_desc(v)
+        return e
     if isinstance(v, dt.date):
         return {"d": [v.year, v.month, v.day]}
     if isinstance(v, dt.time):
-        return {"t": [v.hour, v.minute, v.second, v.microsecond]}
+        e = {"t": [v.hour, v.minute, v.second, v.microsecond]}
+        if v.tzinfo is not None:
+            e["tz"] = tz_desc(v)
+        return e
     if isinstance(v, dict):
         return {"o": str(v)}
     if isinstance(v, tuple):
@@ -48,8 +297,12 @@ def enc(v):
 
 def dec(e):
     """JSON encoding -> a fresh Python value (never shares objects between calls)."""
-    if e is None or isinstance(e, (bool, int, str)):
+    if e is None or isinstance(e, (bool, int, str, float)):
         return e
+    if "x" in e:
+        return EXOTIC[e["x"]]()
+    if "it" in e:
+        return dec_iterable(e["it"], [dec(x) for x in e["items"]])
     if "f" in e:
         return float(e["f"])
     if "dt" in e:
@@ -67,19 +320,53 @@ def dec(e):
     raise ValueError(e)
 
 
+def dec_iterable(kind, items):
+    """a fresh iterable of the given kind over the items (hashable items only for set-like kinds)"""
+    if kind == "gen":
+        return (x for x in items)
+    if kind == "iter":
+        return iter(items)
+    if kind == "set":
+        return set(items)
+    if kind == "frozenset":
+        return frozenset(items)
+    if kind == "dict":
+        return dict((x, 1) for x in items)
+    if kind == "keys":
+        return dict((x, 1) for x in items).keys()
+    if kind == "deque":
+        return collections.deque(items)
+    if kind == "map":
+        return map(lambda x: x, items)
+    if kind == "range":
+        return range(len(items))
+    if kind == "bytes":
+        return bytes(bytearray(48 + (k % 10) for k in range(len(items))))
+    if kind == "array":
+        return array.array("d", [float(k) + 0.5 for k in range(len(items))])
+    raise ValueError(kind)
+
+
 def dec_dtype(d):
-    """dtype argument: None, a str, {"member": name} (DType member), {"other": 1} (non-str)."""
+    """dtype argument: None, a str, {"member": name} (DType member), {"substr": name} (instance of
+    a str subclass), {"bytes": name}, {"other": 1} (non-str)."""
     if d is None or isinstance(d, str):
         return d
     if "member" in d:
         from odml.dtypes import DType
         return DType[d["member"]]
+    if "substr" in d:
+        return XStr(d["substr"])
+    if "bytes" in d:
+        return d["bytes"].encode("ascii")
     return 5
 
 
 def model_dtype(d):
     if isinstance(d, dict) and "member" in d:
         return d["member"]
+    if isinstance(d, dict) and "substr" in d:
+        return d["substr"]
     if isinstance(d, dict):
         return {"other": True}
     return d
@@ -178,7 +465,11 @@ def modelled_value(e):
         return True
     if isinstance(e, int):
         return abs(e) < 10 ** 15 or e in (10 ** 20, -10 ** 12)
+    if isinstance(e, float):
+        return False
     if isinstance(e, dict):
+        if "x" in e or "it" in e:
+            return False
         if "f" in e:
             x = float(e["f"])
             if x != x or x in (float("inf"), float("-inf")):
@@ -213,6 +504,7 @@ def value_conforms(v, d):
     if d is None:
         return "a value is stored but the dtype is None"
     n = norm_name(d)
+
     if n == "int":
         ok = type(v) is int
     elif n == "float":
@@ -227,6 +519,11 @@ def value_conforms(v, d):
         ok = type(v) is dt.time and v.microsecond == 0
     elif n == "datetime":
         ok = type(v) is dt.datetime and v.microsecond == 0
+        if not ok and isinstance(v, dt.datetime) and v.microsecond == 0 and v.tzinfo is None:
+            # every other converter hands out the exact type for an instance of a subclass;
+            # datetime_get keeps the object (known finding, see finding_key)
+            return "datetime-subclass: value %r of class %s (a subclass of datetime) is stored as it is in a " \
+                   "datetime Property" % (v, type(v).__name__)
     elif TUPLE_RE.fullmatch(n):
         cnt = int(n[:-6])
         if v is None:
@@ -269,16 +566,35 @@ class C05(fw.Check):
             "append, extend, insert, item assignment, remove, merge, clone; strict on/off), 70% of "
             "the inputs natural for the current dtype. A history is non-trivial when at least one "
             "call after the constructor was accepted with values stored and at least one was "
-            "refused or changed the dtype; distinct = distinct canonical JSON of the case.")
+            "refused or changed the dtype; distinct = distinct canonical JSON of the case. "
+            "Since seeded round 3 also (oracle-only where the model has no such value): values "
+            "outside the model - time / datetime objects with a time zone (fixed offset, named "
+            "zone, hand-written tzinfo), fold, min / max, instances of subclasses of int / float / "
+            "str / date / time / datetime, Decimal / Fraction / complex / bytes / enum members, "
+            "non-ASCII digits, Unicode white space, lone surrogates, NUL - through the converters "
+            "and through every entry point (constructor, values=, value=, append, extend, insert, "
+            "item assignment, merge directly / through Section.merge / through a link, extend by a "
+            "Property, clone, dtype change); iterables that are neither list nor tuple; index and "
+            "strict arguments of other shapes; dtype names given as str-subclass instances, bytes, "
+            "with white space / non-ASCII letters; 10- and 12-tuples; lists of ten and more values; "
+            "Properties attached to a Section and with a values cardinality; the same source "
+            "Property merged twice; clone and original both kept; the caller changing the list it "
+            "passed in; text round trip after every call incl. value_str; final state saved to XML / "
+            "JSON / YAML text and loaded again (non-text dtypes).")
 
     # -- generation ----------------------------------------------------------
     def all_dtypes(self):
         return [None] + DTYPES_VALID + DTYPES_VARIANT + DTYPES_BAD + MEMBERS + [{"other": 1}]
 
-    def pick_value(self, rng, cls, level):
-        """level 0: an element (atom or flat list) ; 1: a caller input (may be a list of elements)"""
+    def pick_value(self, rng, cls, level, x=False):
+        """level 0: an element (atom or flat list) ; 1: a caller input (may be a list of elements).
+        x: also draw from the values outside the model (EXOTIC) and wrap in other iterables."""
         r = rng.random()
-        if r < 0.6:
+        if x and r < 0.35:
+            v = {"x": rng.choice(X_NATURAL[cls])}
+        elif x and r < 0.45:
+            v = {"x": rng.choice(X_ALL)}
+        elif r < 0.6:
             v = rng.choice(NATURAL[cls])
         elif r < 0.8:
             v = rng.choice(ELEMS)
@@ -294,11 +610,24 @@ class C05(fw.Check):
         if r < 0.6:
             return rng.choice(NESTED + SEQS)
         k = rng.choice([0, 1, 2, 2, 3, 4])
-        items = [self.pick_value(rng, cls, 0) if rng.random() < 0.85 else rng.choice(ELEMS) for _ in range(k)]
+        items = [self.pick_value(rng, cls, 0, x) if rng.random() < 0.85 else rng.choice(ELEMS) for _ in range(k)]
+        if x and rng.random() < 0.3:
+            kind = rng.choice(ITER_KINDS)
+            if kind in ("set", "frozenset", "dict", "keys"):
+                # hashable items only (no lists, no dicts); sets of str are ordered by the hash
+                # seed of the process - the oracle never depends on the order
+                items = [i for i in items if not (isinstance(i, dict) and ("l" in i or "o" in i or "it" in i
+                                                                          or i.get("x", "").startswith("tu_")
+                                                                          or i.get("x") == "i_bytearray"))]
+            return {"it": kind, "items": items}
         return {rng.choice(["l", "l", "l", "tu"]): items}
 
-    def pick_dtype(self, rng):
+    def pick_dtype(self, rng, x=False):
         r = rng.random()
+        if x and r < 0.12:
+            return rng.choice(["10-tuple", "12-tuple", {"substr": "int"}, {"substr": "Time"}, {"substr": "2-tuple"},
+                               {"bytes": "int"}, u"İnt", u"ſtring", u"٢-tuple", u"int ",
+                               " time", "datetime ", "date\x00"])
         if r < 0.7:
             return rng.choice(DTYPES_VALID + [None, None])
         if r < 0.8:
@@ -307,50 +636,92 @@ class C05(fw.Check):
             return rng.choice(DTYPES_VARIANT)
         return rng.choice(DTYPES_BAD + [{"other": 1}])
 
-    def gen_history(self, rng, maxops):
-        d = self.pick_dtype(rng)
+    def gen_history(self, rng, maxops, x=False, long=False):
+        """x: values / dtype / index / strict arguments of the shapes the model does not have
+        (the case is then oracle-only). long: ten and more values, indices around the tenth."""
+        d = self.pick_dtype(rng, x)
         cls = dclass(d)
         if d is None:
             cls = rng.choice(sorted(NATURAL))
-        ctor = {"d": d, "values": self.pick_value(rng, cls, 1) if rng.random() < 0.85 else None,
-                "value": self.pick_value(rng, cls, 1) if rng.random() < 0.1 else None}
+        ctor = {"d": d, "values": self.pick_value(rng, cls, 1, x) if rng.random() < 0.85 else None,
+                "value": self.pick_value(rng, cls, 1, x) if rng.random() < 0.1 else None}
+        if long:
+            ctor["values"] = {"l": [self.pick_value(rng, cls, 0) if rng.random() < 0.1 else rng.choice(NATURAL[cls])
+                                    for _ in range(rng.randrange(9, 14))]}
+        # configuration of the object: attached to a Section or free, with a values cardinality or
+        # without (neither may change what is stored)
+        r = rng.random()
+        if r < 0.3:
+            ctor["cfg"] = {"parent": rng.random() < 0.7,
+                           "card": rng.choice([None, None, 1, [1, 2], [0, 0], [None, 10], [12, None]])}
         ops = []
         for _ in range(rng.randrange(0, maxops + 1)):
             k = rng.choice(["values", "values", "dtype", "dtype", "append", "append", "extend", "extend",
-                            "insert", "setitem", "setitem", "remove", "merge", "clone", "extend_prop"])
+                            "insert", "setitem", "setitem", "remove", "merge", "clone", "extend_prop",
+                            "value_alias" if rng.random() < 0.5 else "values"])
             strict = rng.random() < 0.5
+            if x and rng.random() < 0.15:
+                strict = rng.choice(X_STRICT)
             if k == "dtype":
-                nd = self.pick_dtype(rng)
+                nd = self.pick_dtype(rng, x)
                 ops.append({"k": k, "d": nd})
                 if rng.random() < 0.5 and isinstance(nd, (str, dict)):
                     cls = dclass(nd)
-            elif k in ("values", "extend"):
-                op = {"k": k, "v": self.pick_value(rng, cls, 1)}
+            elif k in ("values", "extend", "value_alias"):
+                op = {"k": k, "v": self.pick_value(rng, cls, 1, x)}
                 if k == "extend":
                     op["strict"] = strict
                 ops.append(op)
             elif k == "append":
-                v = self.pick_value(rng, cls, 1 if rng.random() < 0.3 else 0)
+                v = self.pick_value(rng, cls, 1 if rng.random() < 0.3 else 0, x)
                 ops.append({"k": k, "v": v, "strict": strict})
             elif k == "insert":
-                v = self.pick_value(rng, cls, 1 if rng.random() < 0.3 else 0)
-                ops.append({"k": k, "i": rng.choice([-7, -2, -1, 0, 0, 1, 2, 3, 9]), "v": v, "strict": strict})
+                v = self.pick_value(rng, cls, 1 if rng.random() < 0.3 else 0, x)
+                i = rng.choice([-7, -2, -1, 0, 0, 1, 2, 3, 9])
+                if long:
+                    i = rng.choice([-13, -10, -1, 0, 8, 9, 10, 11, 12, 13, 14, 20])
+                if x and rng.random() < 0.25:
+                    i = rng.choice(X_INDEX)
+                ops.append({"k": k, "i": i, "v": v, "strict": strict})
             elif k == "setitem":
-                ops.append({"k": k, "i": rng.choice([-1, 0, 0, 0, 1, 1, 2, 3, 8]), "v": self.pick_value(rng, cls, 0)})
+                i = rng.choice([-1, 0, 0, 0, 1, 1, 2, 3, 8])
+                if long:
+                    i = rng.choice([-1, 0, 8, 9, 9, 10, 10, 11, 12, 13, 14, 15])
+                if x and rng.random() < 0.25:
+                    i = rng.choice(X_INDEX)
+                ops.append({"k": k, "i": i, "v": self.pick_value(rng, cls, 0, x)})
             elif k == "remove":
-                ops.append({"k": k, "v": self.pick_value(rng, cls, 0), "stored": rng.random() < 0.6,
-                            "pos": rng.randrange(0, 4)})
+                ops.append({"k": k, "v": self.pick_value(rng, cls, 0, x), "stored": rng.random() < 0.6,
+                            "pos": rng.randrange(0, 4 if not long else 14)})
             elif k == "merge":
                 ocls = cls if rng.random() < 0.7 else rng.choice(sorted(NATURAL))
-                od = rng.choice([None] + [x for x in DTYPES_VALID if dclass(x) == ocls])
-                ops.append({"k": k, "od": od, "ov": self.pick_value(rng, ocls, 1), "strict": strict})
+                od = rng.choice([None] + [y for y in DTYPES_VALID if dclass(y) == ocls])
+                op = {"k": k, "od": od, "ov": self.pick_value(rng, ocls, 1, x), "strict": strict}
+                r = rng.random()
+                if r < 0.25:
+                    op["via"] = "section"      # Section.merge of the parents reaches Property.merge
+                elif r < 0.35:
+                    op["via"] = "link"         # ... and so does resolving a link (always non-strict)
+                    op["strict"] = False
+                if rng.random() < 0.25:
+                    op["reuse"] = True         # the source Property of the previous merge / extend again
+                ops.append(op)
             elif k == "extend_prop":
-                od = rng.choice([x for x in DTYPES_VALID if dclass(x) == cls] or [None])
-                ops.append({"k": k, "od": od, "ov": self.pick_value(rng, cls, 1),
-                            "same_unit": rng.random() < 0.85})
+                od = rng.choice([y for y in DTYPES_VALID if dclass(y) == cls] or [None])
+                op = {"k": k, "od": od, "ov": self.pick_value(rng, cls, 1, x),
+                      "same_unit": rng.random() < 0.85}
+                if rng.random() < 0.25:
+                    op["reuse"] = True
+                ops.append(op)
             else:
-                ops.append({"k": "clone"})
-        return {"stream": "history", "ctor": ctor, "ops": ops}
+                # keep: go on with the original instead of the clone; keep_id: the clone() option
+                ops.append({"k": "clone", "keep": rng.random() < 0.4, "keep_id": rng.random() < 0.3})
+        case = {"stream": "history", "ctor": ctor, "ops": ops}
+        if x:
+            case["x"] = True
+        if rng.random() < (0.4 if x else 0.1):
+            case["saved"] = True       # the final state is also written to XML / JSON / YAML and read again
+        return case
 
     def generate(self, tier, rng):
         cases = []
@@ -358,11 +729,19 @@ class C05(fw.Check):
         names = [d for d in self.all_dtypes()]
         names += sorted(set(n for n in dir(str) if not n.startswith("__")))[::3] + ["__len__", "__doc__"]
         names += [c.upper() for c in CANON] + [c.capitalize() for c in CANON] + ["%d-tuple" % k for k in (1, 9, 10, 293939)]
+        # neighbours of the valid names: white space, non-ASCII letters whose lower() / upper() is
+        # close to a valid name, non-ASCII digits, instances of a str subclass, bytes
+        names += [" int", "int ", "\tint", "int\n", u"int ", u"İnt", u"ſtring", u"Kelvin",
+                  u"٢-tuple", u"２-tuple", "2-tuple ", "2 -tuple", "2-Tuple", "+2-tuple", "2_0-tuple",
+                  "1e1-tuple", "10-tuple", "12-TUPLE", "100-tuple", "text\x00", "url,", "person;"]
+        names += [{"substr": "int"}, {"substr": "STRING"}, {"substr": "3-tuple"}, {"substr": "join"}, {"bytes": "int"}]
         for n in names:
             cases.append({"stream": "valid_type", "d": n})
         # 2. infer over values
         for v in ELEMS:
             cases.append({"stream": "infer", "v": v})
+        for n in X_ALL:
+            cases.append({"stream": "infer", "v": {"x": n}})
         # 3. get / set over dtype pool x value pool
         dts = [None] + DTYPES_VALID + DTYPES_VARIANT + ["", "tuple", "join", "x-tuple", "-2-tuple", "2-tuples"] + MEMBERS[2:4]
         vals = ELEMS if tier == "thorough" else None
@@ -371,6 +750,26 @@ class C05(fw.Check):
             for v in pool:
                 cases.append({"stream": "get", "d": d, "v": v})
                 cases.append({"stream": "set", "d": d, "v": v})
+        # 3x. the same with the values outside the model (oracle-only): every such value through
+        # the converter of its own class and of every other valid dtype
+        for d in DTYPES_VALID + ["10-tuple", "12-tuple", "Time", "DATETIME", {"member": "time"}, {"member": "datetime"}]:
+            own = X_NATURAL[dclass(d)]
+            pool = X_ALL if tier == "thorough" else sorted(set(own + rng.sample(X_ALL, 12)))
+            for n in pool:
+                cases.append({"stream": "get", "d": d, "v": {"x": n}})
+                cases.append({"stream": "set", "d": d, "v": {"x": n}})
+        # multi-digit tuple sizes (the count is read from the text of the dtype name)
+        ten = "(" + ";".join("abcdefghij") + ")"
+        for d in ["10-tuple", "12-tuple", "1-tuple", "2-tuple"]:
+            for v in [ten, ten[:-1] + ";k;l)", "(a)", "(a;b)", {"l": list("abcdefghij")}, {"l": list("abcdefghijkl")},
+                      {"l": [ten, ten]}, {"l": [{"l": list("abcdefghij")}, ten]}, "", None]:
+                if not (isinstance(v, dict) and any(isinstance(y, dict) for y in v["l"])):
+                    cases.append({"stream": "get", "d": d, "v": v})
+                cases.append({"stream": "history", "ctor": {"d": d, "values": v, "value": None}, "ops": [
+                    {"k": "append", "v": ten, "strict": True}, {"k": "dtype", "d": "12-tuple"},
+                    {"k": "dtype", "d": "10-tuple"}, {"k": "dtype", "d": "1-tuple"}, {"k": "dtype", "d": "string"},
+                    {"k": "dtype", "d": d}, {"k": "setitem", "i": 1, "v": {"l": list("abcdefghij")}},
+                    {"k": "clone"}]})
         # 4. single-call grid: constructor and values= / dtype= from a fresh Property
         for d in DTYPES_VALID + DTYPES_VARIANT[:3] + [None, "join"]:
             pool = NATURAL[dclass(d)] + (rng.sample(ELEMS + NESTED, 12) if tier == "quick" else ELEMS + NESTED)
@@ -382,10 +781,60 @@ class C05(fw.Check):
                 v = rng.choice(NATURAL[dclass(d)])
                 cases.append({"stream": "history", "ctor": {"d": d, "values": {"l": [v, rng.choice(NATURAL[dclass(d)])]},
                                                             "value": None}, "ops": [{"k": "dtype", "d": nd}]})
+        # 4x. every value outside the model through EVERY entry point of a Property of its own
+        # class that already holds a plain value (and of a few other classes): constructor with
+        # and without dtype, values=, the value alias, append, extend, insert, item assignment,
+        # merge (directly and through the parent Sections), extend by a Property, clone, and a
+        # dtype change away and back. One call per case so that no call hides behind another.
+        for d in CANON + ["2-tuple", "10-tuple", None]:
+            cls = dclass(d)
+            own = X_NATURAL[cls] if d is not None else X_ALL
+            pool = own + (rng.sample(X_ALL, 4) if tier == "quick" else X_ALL)
+            plain = [v for v in NATURAL[cls] if v not in (None, "")][:2]
+            if d == "10-tuple":
+                plain = [ten]
+            for n in sorted(set(pool)):
+                xv = {"x": n}
+                partner = {"x": rng.choice(own)}
+                entries = [
+                    [{"k": "values", "v": {"l": [plain[0], xv]}}],
+                    [{"k": "value_alias", "v": xv}],
+                    [{"k": "append", "v": xv, "strict": False}],
+                    [{"k": "append", "v": xv, "strict": True}],
+                    [{"k": "extend", "v": {"l": [xv, partner]}, "strict": False}],
+                    [{"k": "extend", "v": {"it": "gen", "items": [plain[0], xv]}, "strict": True}],
+                    [{"k": "insert", "i": 0, "v": xv, "strict": False}],
+                    [{"k": "setitem", "i": 0, "v": xv}],
+                    [{"k": "setitem", "i": 1, "v": xv}],
+                    [{"k": "merge", "od": d, "ov": {"l": [xv]}, "strict": True}],
+                    [{"k": "merge", "od": None, "ov": {"l": [xv]}, "strict": False, "via": "section"}],
+                    [{"k": "merge", "od": d, "ov": {"l": [partner, xv]}, "strict": False, "via": "link"}],
+                    [{"k": "extend_prop", "od": d, "ov": {"l": [xv]}, "same_unit": True}],
+                    [{"k": "values", "v": {"tu": [xv]}}, {"k": "clone", "keep": False},
+                     {"k": "dtype", "d": "string"}, {"k": "dtype", "d": d}],
+                ]
+                cases.append({"stream": "history", "x": True, "saved": True,
+                              "ctor": {"d": d, "values": {"l": [xv, partner]}, "value": None}, "ops": []})
+                cases.append({"stream": "history", "x": True, "saved": True,
+                              "ctor": {"d": d, "values": None, "value": xv}, "ops": []})
+                cases.append({"stream": "history", "x": True, "saved": True,
+                              "ctor": {"d": None, "values": xv, "value": None},
+                              "ops": [{"k": "dtype", "d": d}, {"k": "clone", "keep": False}]})
+                for ops in entries:
+                    cases.append({"stream": "history", "x": True, "saved": True,
+                                  "ctor": {"d": d, "values": {"l": plain[:1]}, "value": None}, "ops": ops})
         # 5. random histories
         n = 10000 if tier == "quick" else 500000
         for _ in range(n):
             cases.append(self.gen_history(rng, 15 if rng.random() < 0.5 else 6))
+        # 5x. random histories with values / dtype names / index and strict arguments outside the
+        # model, and histories over long value lists (tenth value and beyond)
+        n = 3000 if tier == "quick" else 150000
+        for _ in range(n):
+            cases.append(self.gen_history(rng, 15 if rng.random() < 0.5 else 6, x=True, long=rng.random() < 0.1))
+        n = 600 if tier == "quick" else 30000
+        for _ in range(n):
+            cases.append(self.gen_history(rng, 10, long=True))
         # 6. implementation-only stream: floats / ints outside the modelled universe
         m = 150 if tier == "quick" else 5000
         for _ in range(m):
@@ -416,8 +865,32 @@ class C05(fw.Check):
     def snap(p):
         return {"values": [enc(v) for v in p.values], "dtype": enc_dtype(p.dtype)}
 
+    @staticmethod
+    def text_roundtrip(v, d, fails, where, value_str=None):
+        """clause 4 on one value: value -> text -> value is the identity (dtypes.set / dtypes.get,
+        str() of that text, which is what the writers put into a file, and Property.value_str)"""
+        from odml import dtypes
+        try:
+            txt = dtypes.set(v, d)
+            back = dtypes.get(txt, d)
+            if enc(back) != enc(v):
+                fails.append("%s: normal form: value %r -> text %r -> %r" % (where, v, txt, back))
+            if type(v) is not float and txt is not None:
+                back2 = dtypes.get(str(txt), d)
+                if enc(back2) != enc(v):
+                    fails.append("%s: normal form: value %r -> str %r -> %r" % (where, v, str(txt), back2))
+            if value_str is not None:
+                via = value_str()
+                back3 = dtypes.get(via, d)
+                if enc(back3) != enc(v):
+                    fails.append("%s: normal form: value %r -> value_str %r -> %r" % (where, v, via, back3))
+        except Exception as exc:
+            fails.append("%s: normal form: value %r does not survive value -> text -> value (%s)"
+                         % (where, v, fw.exc_name(exc)))
+
     def check_object(self, p, where, fails):
-        """clause 1 of the property on the current state of p"""
+        """clause 1 of the property on the current state of p, and the per-value part of clause 4
+        (both hold "at every moment", so after every call, accepted or refused)"""
         d = enc_dtype(p.dtype)
         if not dtype_ok(d):
             fails.append("%s: dtype %r is not a valid odML type" % (where, d))
@@ -430,6 +903,66 @@ class C05(fw.Check):
                 fails.append("%s: %s" % (where, msg))
             if enc(p[i]) != enc(v):
                 fails.append("%s: p[%d] differs from p.values[%d]" % (where, i, i))
+            if dtype_ok(d):
+                self.text_roundtrip(v, p.dtype, fails, where, lambda: p.value_str(i))
+
+    def saved_and_loaded(self, p, fails):
+        """clause 4 through the library's own text forms: a document holding the Property is
+        written to an XML / JSON / YAML string and read again; the Property read has the same
+        values and dtype. Only for the six non-text dtypes (how the writers quote text and tuples
+        is the business of other properties) and only when every stored value conforms (otherwise
+        the failure is reported already)."""
+        try:
+            import odml
+            from odml.tools import ODMLWriter, ODMLReader
+        except ImportError:
+            return
+        d = enc_dtype(p.dtype)
+        if not p.values or not isinstance(d, str) or \
+                norm_name(d) not in ("int", "float", "boolean", "date", "time", "datetime"):
+            return
+        if any(value_conforms(v, d) for v in p.values):
+            return
+        want = self.snap(p)
+        if p.parent is None:
+            p.parent = odml.Section("s", "t")
+        sec = p.parent
+        if sec.link is not None:
+            return                 # what is written for a linked Section is the business of C12
+        if sec.parent is None:
+            odml.Document().append(sec)
+        doc = sec.document
+        for fmt in ("XML", "JSON", "YAML"):
+            try:
+                text = ODMLWriter(fmt).to_string(doc)
+            except Exception as exc:
+                fails.append("normal form: a document with the Property in state %s cannot be written as %s (%s)"
+                             % (want, fmt, fw.exc_name(exc)))
+                continue
+            try:
+                got = self.snap(ODMLReader(fmt).from_string(text).sections[sec.name].properties[p.name])
+            except Exception as exc:
+                fails.append("normal form: the %s text of a document with the Property in state %s cannot be "
+                             "loaded again (%s)" % (fmt, want, fw.exc_name(exc)))
+                continue
+            if got != want:
+                fails.append("normal form: state %s saved as %s and loaded again is %s" % (want, fmt, got))
+
+    @staticmethod
+    def disturb(arg):
+        """The caller goes on using the object it passed in: a list (and the lists inside) gets
+        another item, one that conforms to no dtype (a bytes object; one item too many inside an
+        n-tuple value). -> whether anything was changed. The stored values must still conform."""
+        done = False
+        if isinstance(arg, (list, tuple)):
+            for x in arg:
+                if isinstance(x, list):
+                    x.append(b"zz")
+                    done = True
+        if isinstance(arg, list):
+            arg.append(b"zz")
+            done = True
+        return done
 
     def impl_once(self, case):
         import odml
@@ -441,18 +974,36 @@ class C05(fw.Check):
             return {"r": dtypes.infer_dtype(dec(case["v"]))}
         if st in ("get", "set"):
             fn = dtypes.get if st == "get" else dtypes.set
+            d = dec_dtype(case["d"])
             try:
-                return {"ok": enc(fn(dec(case["v"]), dec_dtype(case["d"])))}
+                res = fn(dec(case["v"]), d)
             except Exception as exc:
                 return {"raised": fw.exc_name(exc)}
+            fails = []
+            de = enc_dtype(d)
+            if st == "get" and res is not None and de is not None and isinstance(de, str) and dtype_ok(de):
+                # what get hands out is what a Property stores: of the class of the dtype and in
+                # normal form (None for an empty n-tuple item is the known finding, not re-reported here)
+                msg = value_conforms(res, de)
+                if msg:
+                    fails.append("get: " + msg)
+                else:
+                    self.text_roundtrip(res, d, fails, "get")
+            return {"ok": enc(res), "fails": fails}
         # history
         fails = []
         c = case["ctor"]
+        cfg = c.get("cfg") or {}
         kw = {"name": "p", "dtype": dec_dtype(c["d"])}
         if c["values"] is not None:
             kw["values"] = dec(c["values"])
         if c.get("value") is not None:
             kw["value"] = dec(c["value"])
+        if cfg.get("parent"):
+            kw["parent"] = odml.Section("s", "t")
+        if cfg.get("card") is not None:
+            card = cfg["card"]
+            kw["val_cardinality"] = tuple(card) if isinstance(card, list) else card
         try:
             p = odml.Property(**kw)
         except Exception as exc:
@@ -462,56 +1013,100 @@ class C05(fw.Check):
             return {"ctor": name, "trace": [], "fails": fails, "ops_model": []}
         trace = [dict(self.snap(p), outcome="ok")]
         self.check_object(p, "after the constructor", fails)
+        if any([self.disturb(kw[a]) for a in ("values", "value") if a in kw]):
+            self.check_object(p, "after the constructor, once the caller has changed the list it had passed in", fails)
         ops_model = []
+        bystanders = []          # (what, object, snapshot): objects that must stay as they are
+        other = None
         for idx, op in enumerate(case["ops"]):
             before = self.snap(p)
             k = op["k"]
             where = "call %d (%s)" % (idx, k)
             mop = dict((a, b) for a, b in op.items() if a in ("k", "v", "i", "strict", "same_unit"))
             allowed = ("ValueError",)
+            arg = None
             try:
-                if k == "values":
-                    p.values = dec(op["v"])
+                if k in ("values", "value_alias"):
+                    mop["k"] = "values"
+                    arg = dec(op["v"])
+                    if k == "values":
+                        p.values = arg
+                    else:
+                        p.value = arg         # the deprecated alias is an entry point as well
                 elif k == "dtype":
                     allowed = ("ValueError", "AttributeError")
                     mop["d"] = model_dtype(op["d"])
                     p.dtype = dec_dtype(op["d"])
                 elif k == "append":
-                    p.append(dec(op["v"]), strict=op["strict"])
+                    arg = dec(op["v"])
+                    p.append(arg, strict=op["strict"])
                 elif k == "extend":
-                    p.extend(dec(op["v"]), strict=op["strict"])
+                    arg = dec(op["v"])
+                    p.extend(arg, strict=op["strict"])
                 elif k == "insert":
-                    p.insert(op["i"], dec(op["v"]), strict=op["strict"])
+                    if not std_index(op["i"]):
+                        allowed = None        # an index of another shape: any refusal, nothing changed
+                    arg = dec(op["v"])
+                    p.insert(dec(op["i"]), arg, strict=op["strict"])
                 elif k == "setitem":
-                    if op["i"] < 0 or op["i"] > len(before["values"]):
+                    if not std_index(op["i"]):
+                        allowed = None
+                    elif op["i"] < 0 or op["i"] > len(before["values"]):
                         allowed = ("ValueError", "IndexError")
-                    p[op["i"]] = dec(op["v"])
+                    arg = dec(op["v"])
+                    p[dec(op["i"])] = arg
                 elif k == "remove":
                     v = op["v"]
+                    rv = None
                     if op["stored"] and before["values"]:
-                        v = before["values"][op["pos"] % len(before["values"])]
+                        pos = op["pos"] % len(before["values"])
+                        v = before["values"][pos]
+                        rv = p.values[pos]
                     mop["v"] = v
-                    p.remove(dec(v))
+                    # a fresh equal object (a stored nan is then not found, as in the model);
+                    # the stored object itself only where the encoding cannot be decoded
+                    # (a value with a time zone, an object of an unknown class)
+                    p.remove(rv if unmodelled_enc(v) else dec(v))
                 elif k in ("merge", "extend_prop"):
-                    try:
-                        other = odml.Property(name="p", dtype=dec_dtype(op["od"]), values=dec(op["ov"]))
-                    except Exception:
-                        other = odml.Property(name="p")
-                    if k == "extend_prop" and not op["same_unit"]:
-                        other.unit = "mV"
+                    if not (op.get("reuse") and other is not None):
+                        try:
+                            other = odml.Property(name="p", dtype=dec_dtype(op["od"]), values=dec(op["ov"]))
+                        except Exception:
+                            other = odml.Property(name="p")
+                    other.unit = "mV" if k == "extend_prop" and not op["same_unit"] else None
                     mop["vals"] = [enc(v) for v in other.values]
                     mop["d"] = enc_dtype(other.dtype)
-                    if k == "merge":
-                        p.merge(other, strict=op["strict"])
-                    else:
+                    bystanders.append(("the source Property of " + where, other, None))
+                    if k == "extend_prop":
                         p.extend(other)
+                    elif op.get("via") == "section":
+                        if p.parent is None:
+                            p.parent = odml.Section("s", "t")
+                        other.parent = odml.Section("s", "t")
+                        p.parent.merge(other.parent, strict=op["strict"])
+                    elif op.get("via") == "link" and (p.parent is None or p.parent.link is None):
+                        # resolving a link is a non-strict merge of the two Sections
+                        mop["strict"] = False
+                        if p.parent is None:
+                            p.parent = odml.Section("s", "t")
+                        if p.parent.parent is None:
+                            odml.Document().append(p.parent)
+                        target = odml.Section("target%d" % idx, "t", parent=p.parent.document)
+                        other.parent = target
+                        p.parent.link = "/target%d" % idx
+                    else:
+                        p.merge(other, strict=op["strict"])
                 elif k == "clone":
-                    q = p.clone()
+                    q = p.clone(keep_id=True) if op.get("keep_id") else p.clone()
                     if self.snap(q) != before:
                         fails.append("%s: the clone has values/dtype %s, the original %s" % (where, self.snap(q), before))
                     if self.snap(p) != before:
                         fails.append("%s: cloning changed the original" % where)
-                    p = q
+                    if op.get("keep"):
+                        bystanders.append(("the clone made by " + where, q, self.snap(q)))
+                    else:
+                        bystanders.append(("the original cloned by " + where, p, before))
+                        p = q
                 outc = "ok"
             except Exception as exc:
                 outc = fw.exc_name(exc)
@@ -520,7 +1115,7 @@ class C05(fw.Check):
             ops_model.append(mop)
             # clause 2/3: a refusal is a ValueError and changes nothing
             if outc != "ok":
-                if outc not in allowed:
+                if allowed is not None and outc not in allowed:
                     fails.append("%s: refused with %s, not ValueError" % (where, outc))
                 if after != before:
                     fails.append("%s: refused with %s but values/dtype changed from %s to %s"
@@ -533,22 +1128,18 @@ class C05(fw.Check):
                     fails.append("%s: dtype change lost %d value(s)"
                                  % (where, len(before["values"]) - len(after["values"])))
             self.check_object(p, "after " + where, fails)
+            if arg is not None and self.disturb(arg):
+                self.check_object(p, "after %s, once the caller has changed the list it had passed in" % where, fails)
+        # Properties that took part earlier (clones / originals, merge sources) are Properties too:
+        # still conforming; a clone and its original are not changed by what happened to the other
+        # one afterwards (for the source of a merge the property does not say so: not demanded)
+        for what, obj, snapshot in bystanders[-6:]:
+            self.check_object(obj, what + " at the end", fails)
+            if snapshot is not None and self.snap(obj) != snapshot:
+                fails.append("%s changed from %s to %s through later calls on the other object"
+                             % (what, snapshot, self.snap(obj)))
         # clause 4: normal form
         final = self.snap(p)
-        d = p.dtype
-        for i, v in enumerate(p.values):
-            try:
-                txt = dtypes.set(v, d)
-                back = dtypes.get(txt, d)
-                if enc(back) != enc(v):
-                    fails.append("normal form: value %r -> text %r -> %r" % (v, txt, back))
-                if type(v) is not float and txt is not None:
-                    back2 = dtypes.get(str(txt), d)
-                    if enc(back2) != enc(v):
-                        fails.append("normal form: value %r -> str %r -> %r" % (v, str(txt), back2))
-            except Exception as exc:
-                fails.append("normal form: value %r does not survive value -> text -> value (%s)"
-                             % (v, fw.exc_name(exc)))
         try:
             p.values = p.values
             if self.snap(p) != final:
@@ -557,6 +1148,8 @@ class C05(fw.Check):
         except Exception as exc:
             fails.append("normal form: assigning the Property its own values raised %s (state %s)"
                          % (fw.exc_name(exc), final))
+        if case.get("saved"):
+            self.saved_and_loaded(p, fails)
         return {"ctor": "ok", "trace": trace, "fails": fails, "ops_model": ops_model}
 
     # -- model ---------------------------------------------------------------
@@ -568,11 +1161,28 @@ class C05(fw.Check):
             c = case["ctor"]
             vals = [c["values"], c.get("value")] + [op.get("v") for op in case["ops"]] + \
                    [op.get("ov") for op in case["ops"]]
-            return all(self.deep_ok(v) for v in vals)
+            if not all(self.deep_ok(v) for v in vals):
+                return False
+            # argument shapes the model does not have: index / strict that are not int / bool,
+            # dtype names outside ASCII or given as bytes
+            for op in case["ops"]:
+                if "i" in op and not std_index(op["i"]):
+                    return False
+                if "strict" in op and not isinstance(op["strict"], bool):
+                    return False
+            for d in [c["d"]] + [op.get("d") for op in case["ops"]] + [op.get("od") for op in case["ops"]]:
+                if isinstance(d, str) and not all(0x20 <= ord(ch) < 0x7f or ch in "\t\n" for ch in d):
+                    return False
+                if isinstance(d, dict) and "bytes" in d:
+                    return False
+            return True
         if st in ("get", "set", "infer"):
             if st == "set" and isinstance(case["v"], dict) and "o" in case["v"]:
                 return False       # ";".join(dict) iterates the keys of the opaque dict
             return self.deep_ok(case["v"])
+        if st == "valid_type":
+            d = case["d"]
+            return not (isinstance(d, str) and not d.isascii())
         return True
 
     def deep_ok(self, e):
@@ -593,6 +1203,13 @@ class C05(fw.Check):
             d = model_dtype(case["d"])
             return [dict(P, op=st, v=case["v"], d=d)]
         c = case["ctor"]
+        if any(unmodelled_enc(m.get("v")) or unmodelled_enc(m.get("vals")) for m in obs["ops_model"]):
+            return []          # see unmodelled_enc: the oracle has reported this history
+        for op, m in zip(case["ops"], obs["ops_model"]):
+            if op.get("reuse") and {"f": "nan"} in (m.get("vals") or []):
+                # a source Property used twice hands over the same nan OBJECT twice; `in` finds an
+                # object by identity before it compares, the model's nan is never equal to anything
+                return []
         return [dict(P, op="history", ctor={"d": model_dtype(c["d"]), "values": c["values"],
                                             "value": c.get("value")},
                      ops=obs["ops_model"])]
@@ -633,20 +1250,44 @@ class C05(fw.Check):
         out = []
         if st == "valid_type":
             d = case["d"]
-            name = d.get("member", 5) if isinstance(d, dict) else d
+            name = d.get("member", d.get("substr", 5)) if isinstance(d, dict) else d
             want = name is None or (isinstance(name, str) and dtype_ok(name))
             if obs["r"] != want:
                 out.append("valid_type(%r) is %s" % (name, obs["r"]))
         elif st == "infer":
             if obs["r"] not in CANON:
                 out.append("infer_dtype returned %r, not an odML type" % (obs["r"],))
-        elif st == "history":
+        elif st in ("history", "get"):
             out.extend(obs.get("fails", []))
         return out
 
     def finding_key(self, case, obs, failure):
         if "tuple-none: value None stored in a" in failure:
             return "C05-tuple-empty-item-stored-as-none"
+        if "datetime-subclass: value XDateTime(" in failure:
+            return "C05-datetime-subclass-kept"
+        if "IndexError, not ValueError" in failure and case.get("stream") == "history":
+            # only: an EMPTY iterable that is neither list, tuple nor str, given to a Property
+            # that has no dtype (and therefore no values), through the constructor / values= /
+            # the value alias / append / extend / insert
+            def empty_iter(e):
+                return isinstance(e, dict) and "it" in e and e["it"] != "dict" and not e["items"]
+
+            def no_dtype(d):
+                return d is None or not ((isinstance(d, str) and dtype_ok(d)) or
+                                         (isinstance(d, dict) and ("member" in d or dtype_ok(d.get("substr", "-")))))
+            c = case["ctor"]
+            if failure.startswith("constructor: unconvertible input raised IndexError"):
+                if no_dtype(c["d"]) and (empty_iter(c["values"]) or empty_iter(c.get("value"))):
+                    return "C05-empty-iterable-indexerror"
+                return None
+            m = re.match(r"call (\d+) \((values|value_alias|append|extend|insert)\): refused with IndexError", failure)
+            if m and int(m.group(1)) < len(case["ops"]):
+                n = int(m.group(1))
+                before = obs.get("trace", [])[n] if n < len(obs.get("trace", [])) else None
+                if before is not None and before["dtype"] is None and not before["values"] \
+                        and empty_iter(case["ops"][n].get("v")):
+                    return "C05-empty-iterable-indexerror"
         return None
 
     def tag(self, case, obs):
@@ -654,12 +1295,12 @@ class C05(fw.Check):
         if st != "history":
             return (st, st in ("get", "set") and "ok" in obs)
         if obs.get("ctor") != "ok":
-            return ("history:ctor-refused", False)
+            return ("history%s:ctor-refused" % ("-x" if case.get("x") else ""), False)
         tr = obs.get("trace", [])[1:]
         acc = any(t["outcome"] == "ok" and t["values"] for t in tr)
         ref = any(t["outcome"] != "ok" for t in tr)
         chg = any(a["dtype"] != b["dtype"] for a, b in zip(obs["trace"], tr))
-        name = "history:%s" % dclass(case["ctor"]["d"])
+        name = "history%s:%s" % ("-x" if case.get("x") else "", dclass(case["ctor"]["d"]))
         return (name + (":refusal" if ref else ""), acc and (ref or chg))
 
 
